@@ -37,7 +37,8 @@ MANIFEST = {
             'Agent_0 methods with preceding no-op events interleaved.'
             '  Second session: 35% of the histories register application-like pilot callbacks (one-shot, raising, registering) before a late observer which must be told exactly what the first observer is told.'
             '  Third session: the agent sandbox of the cause scenarios holds agent_0.out/.err/.log of several kinds (absent, plain, UTF-8, 8-bit text of another locale, binary, multi-byte character cut at the read limit); finalize raising is a violation.'
-            '  Noise events include cancel requests naming nobody or another pilot as a plain string; the concurrent workload has slow application callbacks.',
+            '  Noise events include cancel requests naming nobody or another pilot as a plain string; the concurrent workload has slow application callbacks.'
+            '  Causes include the terminate command of session.close(); in 40 % of the cause scenarios finalize() runs on a work loop thread while the delivering thread is still inside stop() (LINE perturbation of stop).',
     'note': 'Agent_0 is built with __new__ and a virtual clock; bootstrap_0.sh '
             'is not executed, only the file it reads (killme.signal) is '
             'checked; overlapping causes (cancel racing the run-time limit) '
